@@ -101,7 +101,11 @@ class CSSParser:
                 cssText = cssText.decode(encoding)
             if validate is None:
                 validate = self._validate
-            style = css.CSSStyleDeclaration(cssText, validating=validate)
+            # tokenized here so that ``parseComments=False`` holds for a style
+            # attribute as it does for a sheet
+            style = css.CSSStyleDeclaration(
+                self.__tokenizer.tokenize(cssText), validating=validate
+            )
         return style
 
     def parseString(
